@@ -87,7 +87,12 @@ func numericCaseSets(c *Ctx) {
 		for _, b := range fn.Blocks {
 			for _, in := range b.Instrs {
 				ta, ok := in.(*ssa.TypeAssert)
-				if !ok || !ta.CommaOk || an.Strip(ta.X) != ssa.Value(v) {
+				if !ok || !ta.CommaOk {
+					continue
+				}
+				// the parameter itself, or an interface value the function derived from it (a preliminary switch that
+				// widens json.Number to string and int to int64 hands a new `any` to the main switch)
+				if _, isIface := ta.X.Type().Underlying().(*types.Interface); !isIface {
 					continue
 				}
 				got[types.TypeString(ta.AssertedType, func(p *types.Package) string { return p.Name() })] = true
